@@ -26,6 +26,8 @@ def check(run):
         # helpers this property stands on (rule sets owned by other properties, see common.deps)
         from common import deps as _deps
         _deps(run, F, 'isnone')
+        if cfg == 'base':
+            _deps(run, F, 'ord')   # elements are compared through their own PartialOrd
         vcut(run, F)
         unique(run, F)
     # every container the generic code can be instantiated with hands out its elements in logical order
